@@ -285,6 +285,14 @@ func init() {
 		genReqHeads(rng, n*4)
 		// configuration "streaming request body": well-formed streams, handlers that read all or part of the body
 		genStreamCases(rng, n/3, 85)
+		// configurations "netpoll transport" / "sense client disconnection" over loopback TCP (harness/c01net.go)
+		nn := n / 12
+		if tier == "thorough" {
+			nn = 1500
+		}
+		genNetCases(rng, nn)
+		// trailer sections that differ from their announcement, the announcement in every spelling (harness/c01x.go)
+		genTrailerCases(rng, n/2)
 	}
 	props["C02"] = func(tier string, rng *Rng) {
 		n := 250
